@@ -48,6 +48,12 @@ Theorem C13_pn53x_map_total_any : forall d c payload, DrvMap.allowed (pn53x_stat
 Proof. exact pn53x_map_total_any. Qed.
 Print Assumptions C13_pn53x_map_total_any.
 
+(* ReadRegister answers (register preparation, Type 1 / Type 3 register paths): any number of values *)
+Theorem C13_pn53x_readreg_total : forall d with_status nregs payload,
+  DrvMap.allowed (pn53x_readreg_outcome d with_status nregs payload) = true.
+Proof. exact pn53x_readreg_total. Qed.
+Print Assumptions C13_pn53x_readreg_total.
+
 Theorem C13_pn53x_errframe_total : forall d, DrvMap.allowed (pn53x_errframe_outcome d) = true.
 Proof. exact pn53x_errframe_total. Qed.
 Print Assumptions C13_pn53x_errframe_total.
@@ -85,6 +91,11 @@ Theorem C13_rcs380_bytes_word : forall d b0 b1 b2 b3,
   rcs380_bytes_outcome d b0 b1 b2 b3 = rcs380_status_outcome d (le32 b0 b1 b2 b3).
 Proof. exact rcs380_bytes_word. Qed.
 Print Assumptions C13_rcs380_bytes_word.
+
+(* InCommRF / TgCommRF answered with a payload of any length, also one too short for the status word *)
+Theorem C13_rcs380_payload_total : forall d payload, DrvMap.allowed (rcs380_payload_outcome d payload) = true.
+Proof. exact rcs380_payload_total. Qed.
+Print Assumptions C13_rcs380_payload_total.
 
 (* any UDP datagram is data, RFOFF (BrokenLinkError) or a TransmissionError *)
 Theorem C13_udp_datagram_total : forall d, DrvMap.allowed (udp_outcome d) = true.
